@@ -2,13 +2,33 @@
 What a theorem can carry (Properties/C19.v): the read-only operations of the MODEL are pure functions of their inputs, and the
 model of fold / partial / batch builds new terms instead of updating its arguments.  The race half is runtime behaviour of the Go
 memory model, which no Gallina model can exhibit: it is explored here under the race detector (go build -race) with N goroutines
-sharing one policy set, entity map, request, batch template and values; every result is compared with the sequential one and the
+sharing one policy set, entity map, batch template and values, over one common and several per-goroutine requests; every result is compared with the sequential one and the
 inputs are snapshotted before and after."""
 import lib
 import gen
 import sx
 from gen import S, case
 import props.c06 as c06
+
+
+def stateful_policies():
+    C = ['var', 'context']
+    acc = lambda k: ['access', C, S(k)]
+    call = lambda f, *a: ['call', S(f)] + list(a)
+    bodies = [call('isIpv4', call('ip', acc('ip'))), call('isInRange', call('ip', acc('ip')), call('ip', acc('net'))),
+              call('lessThan', call('decimal', acc('dec')), call('decimal', acc('dec2'))), ['lt', call('datetime', acc('dt')), call('datetime', acc('dt2'))],
+              ['lt', call('duration', acc('dur')), call('toTime', call('datetime', acc('dt')))], ['like', acc('ip'), ['pat', S('10.'), ['w']]],
+              ['contains', acc('set'), acc('n')], ['in', ['var', 'principal'], acc('ents')], ['has', C, S('ip')],
+              ['eq', ['mkrec', [S('a'), acc('n')]], ['mkrec', [S('a'), gen.lit(gen.vlong(1))]]], ['gt', ['add', acc('n'), acc('n')], gen.lit(gen.vlong(2))]]
+    return [['policy', S('st%d' % i), 'permit' if i % 3 else 'forbid', ['all'], ['all'], ['all'], ['conds', ['when', b]]] for i, b in enumerate(bodies)]
+
+
+def stateful_context(r):
+    return gen.vrec([('ip', gen.vstr(r.choice(['10.0.0.1', '192.168.1.1', '::1', '10.1.2.3', 'bad']))), ('net', gen.vstr(r.choice(['10.0.0.0/8', '192.168.0.0/16', '::/0']))),
+                     ('dec', gen.vstr(r.choice(['1.5', '2.25', '-1.0', 'x']))), ('dec2', gen.vstr(r.choice(['1.5', '3.0']))),
+                     ('dt', gen.vstr(r.choice(['2024-01-01', '1999-12-31T23:59:59Z', '2024-01-01T01:00:00Z']))), ('dt2', gen.vstr(r.choice(['2024-01-01', '2000-01-01']))),
+                     ('dur', gen.vstr(r.choice(['1h', '2h', '30m', '-1d']))), ('set', gen.vset([gen.vlong(z) for z in r.sample([1, 2, 3, 4], 2)])),
+                     ('n', gen.vlong(r.choice([1, 2, 3]))), ('ents', gen.vset([gen.vent('User', x) for x in r.sample(['a', 'b', 'c'], 2)]))])
 
 
 def run(ctx):
@@ -41,7 +61,14 @@ def run(ctx):
             pols = [['policy', S('p%d' % k), r.choice(['permit', 'forbid']), c06.scope_for(r, 'principal'), c06.scope_for(r, 'action'),
                      c06.scope_for(r, 'resource'), ['conds'] + [[r.choice(['when', 'unless']), c06.bool_expr(r, 2)] for _ in range(r.randrange(0, 3))]]
                     for k in range(r.randrange(1, 5))]
-        cases.append(case('c%d' % i, 'concurrent', store, req, ['policies'] + pols, tmpl, vars_, str(r.choice([4, 8, 16]))))
+        reqs = ['reqs']
+        if i % 2 == 0:
+            reqs += [g.request() for _ in range(5)]
+            if i % 4 == 0:
+                # evaluators of constructors and operators over NON-constant operands (these survive constant folding), fed different strings
+                pols = pols + stateful_policies()
+                reqs = ['reqs'] + [['req', req[1], req[2], req[3], stateful_context(r)] for _ in range(6)]
+        cases.append(case('c%d' % i, 'concurrent', store, req, ['policies'] + pols, tmpl, vars_, str(r.choice([4, 8, 16])), reqs))
     ctx.rule = ('shared policy set (1-5 random or partial-evaluation-heavy policies), entity map, request, batch template with variables and '
                 'value lists; 4-16 goroutines each doing 6 rounds of authorize / batch authorize / MarshalCedar / MarshalJSON / entity-map and value '
                 'accessors / policy inspection on the shared objects under the race detector; results compared with the sequential run, inputs '
